@@ -147,7 +147,10 @@ def main():
     # concrete companion (sampling, not a solver verdict; the immutability clause itself is not claimed): every
     # pharmpy.modeling function that takes a model and needs no further argument (or has an entry in the harness's
     # argument table) is called on three start models and a deep snapshot of the INPUT model must be unchanged
-    run_probes(run, [(Ob('no_mutation', 'C06_frame.py', 'no_mutation', env={}), 'no_mutation(8)')])
+    run_probes(run, [(Ob('no_mutation', 'C06_frame.py', 'no_mutation', env={}), 'no_mutation(8)'),
+                     (Ob('replace_validates', 'C06_frame.py', 'replace_validates', env={}), 'replace_validates()'),
+                     (Ob('replace_validates_omitted', 'C06_frame.py', 'replace_validates', env={}),
+                      'replace_validates(omitted=True)')])
     for o in obs[:12]:
         run.sample(dict(obligation=o.name, harness=o.file, func=o.func, env=o.env))
     run.finish(coverage=dict(explanation=(
